@@ -26,7 +26,8 @@ import uneval_ir as U
 
 # the last two have chains with a parity prefactor != 1 (their components carry an explicit -1 factor)
 MODELS_QUICK = [("jpsi_pipi_2body_hel", "bw_ff", None), ("etac_ll_can", "analytic", None),
-                ("jpsi_gpipi_hel", "bw_ff", "dpd"), ("jpsi_3pi_hel", "none", None), ("jpsi_ksp1750_hel", "none", None)]
+                ("jpsi_gpipi_hel", "bw_ff", "dpd"), ("jpsi_3pi_hel", "none", None), ("jpsi_ksp1750_hel", "none", None),
+                ("jpsi_gpipi_can", "bw_valueobj", None)]
 MODELS_MORE = [("jpsi_gpipi_can", "analytic", "axisangle"), ("jpsi_3pi_hel", "bw_ff", "dpd"),
                ("d0_kkk_hel", "analytic", "dpd"), ("jpsi_ppbar_hel", "none", None), ("lc_pkpi_can", "bw_ff", "dpd"), ("lc_pkpi_hel", "none", None),
                ("jpsi_ksp_can", "bw_ff", "axisangle"), ("psi2s_jpsipipi_hel", "analytic", None),
@@ -123,7 +124,14 @@ def _build_model(name, dyn, align):
         from ampform.helicity.align.axisangle import AxisAngleAlignment
 
         b.config.spin_alignment = AxisAngleAlignment()
-    if dyn != "none":
+    if dyn == "bw_valueobj":
+        from ampform.dynamics.builder import RelativisticBreitWignerBuilder
+
+        # phsp_factor = a callable INSTANCE with value semantics and default repr (new object after unpickling)
+        f = RelativisticBreitWignerBuilder(energy_dependent_width=True, form_factor=True, phsp_factor=U.ValueObj("1/2"))
+        for p in r.get_intermediate_particles().names:
+            b.dynamics.assign(p, f)
+    elif dyn != "none":
         f = create_relativistic_breit_wigner_with_ff if dyn == "bw_ff" else create_analytic_breit_wigner
         for p in r.get_intermediate_particles().names:
             b.dynamics.assign(p, f)
@@ -219,6 +227,8 @@ def run_case(c, seed=0):
         except Exception as e:  # noqa: BLE001
             return ("pickle_exception_" + type(e).__name__, f"pickling {str(x)[:100]} raises {type(e).__name__}: {str(e)[:120]}")
         why = compare_obj(x, back)
+        if not why and len({x, back}) != 1:
+            why = "original and loaded object are two different members of a set"
         if why:
             return ("pickle_instance_differs", f"{type(x).__name__} {str(x)[:100]} (protocol {c['proto']}): {why}")
         if c.get("cross"):
@@ -279,6 +289,13 @@ def main():
     bz = ("U", "ampform.kinematics.lorentz.BoostZMatrix",
           (("Y", "Symbol('b')"), ("U", "ampform.kinematics.lorentz.ArraySize", (("Y", "Symbol('p0')"),), ())), ())
     cases.append({"kind": "instance", "ir": bz, "proto": 4, "cross": True})
+    sy = lambda n: ("Y", f"Symbol('{n}')")  # noqa: E731
+    edw = ("U", "ampform.dynamics.EnergyDependentWidth",
+           (sy("s"), sy("m0"), sy("w0"), sy("m1"), sy("m2"), ("N", 1, 1), ("N", 1, 1)),
+           (("o", "uneval_ir.ValueObj(1/2)"), ("s", "Gamma")))
+    cases.append({"kind": "instance", "ir": edw, "proto": 3, "cross": True})
+    cases.append({"kind": "instance", "ir": ("A", "sympy.core.add.Add", (sy("x"), ("A", "sympy.core.power.Pow", (edw, ("N", 2, 1))))),
+                  "proto": 5, "cross": False})
     cases.append({"kind": "arrayslice_shape"})
     for i in range(len(G.default_instances())):
         cases.append({"kind": "default", "index": i, "proto": 2 + i % 4, "cross": i % 6 == 0})
